@@ -57,7 +57,7 @@ class UnitD(Unit):
         self._trusted = prelude(out, ['ax-rc', 'ax-string-eq', 'ax-str-ext', 'ax-display-ref', 'ax-hash-string', 'ax-extend', 'stdspec-contains', 'stdspec-extend', 'stdspec-assert-failed',
                                       'stdspec-as-deref', 'stdspec-option-combinators', 'stdspec-slice-iter', 'ax-slice-iter', 'stdspec-string-eq-str', 'stdspec-lowercase'])
         self._trusted += sections(out, 'dep_io.rs', ['io-write-ghost'])
-        self._trusted += sections(out, 'dep_misc.rs', ['inflector', 'url', 'roxmltree-error'])
+        self._trusted += sections(out, 'dep_misc.rs', ['inflector', 'url', 'roxmltree-node'])
         out.spec(MOD_HEAD.replace('broadcast use crate::ax::display_ref;',
                                   'broadcast use {crate::ax::display_ref, crate::ax::rc_clone_eq, crate::ax::string_peq, crate::ax::str_ext, '
                                   'crate::ax::string_key_model, crate::ax::str_peq, crate::ax::string_of_view, crate::ax::view_string_of, crate::ax::borrowed_string_key, crate::ax::into_seq_vec, crate::ax::into_map_hashmap, crate::ax::iter_seq_is_remaining, vstd::std_specs::hash::group_hash_axioms};\n'
@@ -73,6 +73,7 @@ class UnitD(Unit):
         emit_const_static(out, G.top('reader.rs', 'const', 'WELL_KNOWN_NAMESPACES'), SRC + 'reader.rs', opaque_value=True)
         self.emit_free(out, G, rel, f, probe)
         self.emit_methods(out, G, rel, f, probe)
+        self.emit_collect(out, G, probe)
         out.spec('}\n' + TAIL)
         return out
 
@@ -183,6 +184,44 @@ class UnitD(Unit):
                            ('existing-bindings-unchanged', 'forall|k: String| lookup_of(*old(self)).contains_key(k) ==> lookup_of(*final(self)).contains_key(k) && lookup_of(*final(self))[k] == lookup_of(*old(self))[k]')],
                   origin={'keeps-table-injective': 'property', 'existing-bindings-unchanged': 'property'})
         close_container(out, im, f)
+
+    def emit_collect(self, out, G, probe):
+        # node.rs: every xmlns declaration in scope of a node is registered through add_namespace_reference
+        rel = 'model/node.rs'
+        f = SRC + rel
+        out.spec('    use crate::roxmltree::{Node, declared_namespaces, declared_ns, xns_name, xns_uri};')
+        KEEP = 'forall|k: String| #[trigger] lookup_of(*old(doc)).contains_key(k) ==> lookup_of({d}).contains_key(k) && lookup_of({d})[k] == lookup_of(*old(doc))[k]'
+        NEW = ('forall|k: String| #[trigger] lookup_of({d}).contains_key(k) && !lookup_of(*old(doc)).contains_key(k) ==> '
+               'exists|i: int| 0 <= i < {n} && xns_name(#[trigger] declared_ns(node)[i]) == Some(k@) && lookup_of({d})[k].namespace@ == xns_uri(declared_ns(node)[i])')
+        splice_fn(out, G.top(rel, 'fn', 'collect_namespaces_on_node'), f, 'node::collect_namespaces_on_node', probe=probe,
+                  requires=[('table-well-formed', 'wf(*old(doc))')],
+                  ensures=[('keeps-table-injective', 'wf(*final(doc))'),
+                           ('existing-bindings-unchanged', KEEP.format(d='*final(doc)')),
+                           ('new-bindings-are-the-declared-ones', NEW.format(d='*final(doc)', n='declared_ns(node).len()'))],
+                  origin={'keeps-table-injective': 'property', 'existing-bindings-unchanged': 'property', 'new-bindings-are-the-declared-ones': 'property'},
+                  opaque=[{'at': 'node.namespaces()', 'call': 'declared_namespaces(node)', 'type': 'Vec<XmlNs>',
+                           'note': 'the namespace declarations in scope as a Vec (assumed contract on roxmltree `namespaces()`: dep_misc.rs roxmltree-node `declared_namespaces`)'}],
+                  inserts=[{'at': 'doc.add_namespace_reference(abbreviation, ns.uri());', 'text': '            let ghost pre_doc = *doc;'},
+                           {'at': 'doc.add_namespace_reference(abbreviation, ns.uri());', 'where': 'after', 'text': '''
+            proof {
+                let idx = it.index@ as int;
+                assert forall|k: String| #[trigger] lookup_of(*doc).contains_key(k) && !lookup_of(*old(doc)).contains_key(k) implies
+                    exists|i: int| 0 <= i < idx + 1 && xns_name(#[trigger] declared_ns(node)[i]) == Some(k@) && lookup_of(*doc)[k].namespace@ == xns_uri(declared_ns(node)[i]) by {
+                    if lookup_of(pre_doc).contains_key(k) {
+                        let i = choose|i: int| 0 <= i < idx && xns_name(#[trigger] declared_ns(node)[i]) == Some(k@) && lookup_of(pre_doc)[k].namespace@ == xns_uri(declared_ns(node)[i]);
+                        assert(lookup_of(*doc)[k] == lookup_of(pre_doc)[k]);
+                        assert(xns_name(declared_ns(node)[i]) == Some(k@));
+                    } else {
+                        assert(xns_name(declared_ns(node)[idx]) == Some(k@));
+                    }
+                }
+            }
+'''}],
+                  loops={0: {'kind': 'for', 'iter': 'it',
+                             'invariants': [('declarations-fixed', 'it.seq() == declared_ns(node)'),
+                                            ('table-stays-well-formed', 'wf(*doc)'),
+                                            ('bindings-kept-so-far', KEEP.format(d='*doc')), ('new-bindings-so-far', NEW.format(d='*doc', n='it.index@'))],
+                             'body_prefix': '        proof { assert(ns == declared_ns(node)[it.index@ as int]); }'}})
 
     def props_of(self, ob):
         # the prefix -> namespace table is also the first mechanism of C09 (a reference denotes the namespace bound to its prefix)
